@@ -104,3 +104,64 @@ conv_milestone!(c12_conv_milestone_at2, 2);
 // the rest symbolic over all of char
 conv_milestone!(c12_conv_milestone_at1_fixedprefix, 1, ['\u{e9}', kani::any(), kani::any()]);
 conv_milestone!(c12_conv_milestone_at2_fixedprefix, 2, ['a', '\u{20ac}', kani::any()]);
+
+// one map at a time (two B-trees in one harness cost 15 GB / 20 min; one costs a fraction)
+macro_rules! ms_utf8byte {
+    ($name:ident, $k:expr) => {
+        #[kani::proof]
+        #[kani::unwind(8)]
+        #[kani::stub(alloc::fmt::format, fmt_stub)]
+        fn $name() {
+            let cs: [char; 3] = [kani::any(), kani::any(), kani::any()];
+            let mut buf = [0u8; 12];
+            let (mut res, _bytes) = sym_resource(3, &cs, &mut buf);
+            let kb = prefix_bytes($k, &cs);
+            res.positionindex.0.insert($k, PositionIndexItem { bytepos: kb, end2begin: smallvec!(), begin2end: smallvec!() });
+            let pos: usize = kani::any();
+            kani::assume(pos <= 5);
+            let b = res.utf8byte(pos);
+            match &b {
+                Ok(b) => assert!(pos <= 3 && *b == prefix_bytes(pos, &cs), "same answer as counting from the start"),
+                Err(_) => assert!(pos > 3, "every position from 0 to the text length converts"),
+            }
+            kani::cover!(pos > $k && pos <= 3, "position after the milestone");
+            kani::cover!(pos < $k, "position before the milestone");
+            kani::cover!(pos == 3 && cs[2].len_utf8() == 4, "end of text after a 4-byte character");
+            core::mem::forget(b);
+            core::mem::forget(res);
+        }
+    };
+}
+ms_utf8byte!(c12_ms_utf8byte_at1, 1);
+ms_utf8byte!(c12_ms_utf8byte_at2, 2);
+
+macro_rules! ms_charpos {
+    ($name:ident, $k:expr, $cs:expr) => {
+        #[kani::proof]
+        #[kani::unwind(8)]
+        #[kani::stub(alloc::fmt::format, fmt_stub)]
+        fn $name() {
+            let cs: [char; 3] = $cs;
+            let mut buf = [0u8; 12];
+            let (mut res, bytes) = sym_resource(3, &cs, &mut buf);
+            let kb = prefix_bytes($k, &cs);
+            res.byte2charmap.insert(kb, $k);
+            let bc: usize = kani::any();
+            kani::assume(bc <= bytes + 2);
+            let boundary = (bc == 0 || bc == prefix_bytes(1, &cs) || bc == prefix_bytes(2, &cs) || bc == prefix_bytes(3, &cs)) && bc <= bytes;
+            let p = res.utf8byte_to_charpos(bc);
+            match &p {
+                Ok(p) => assert!(boundary && *p <= 3 && prefix_bytes(*p, &cs) == bc, "same answer as counting from the start"),
+                Err(_) => assert!(!boundary, "every character boundary converts"),
+            }
+            kani::cover!(p.is_ok() && bc > kb, "byte offset after the milestone");
+            kani::cover!(p.is_ok() && bc < kb, "byte offset before the milestone");
+            kani::cover!(p.is_err() && bc > kb && bc < bytes, "inside a character after the milestone");
+            core::mem::forget(p);
+            core::mem::forget(res);
+        }
+    };
+}
+// the characters up to the milestone are fixed so that the map key is concrete
+ms_charpos!(c12_ms_charpos_at1, 1, ['\u{e9}', kani::any(), kani::any()]);
+ms_charpos!(c12_ms_charpos_at2, 2, ['a', '\u{20ac}', kani::any()]);
